@@ -962,26 +962,353 @@ def spawn_thread(loop, fn, *args):
     return fut
 
 
-REDIR_KINDS = ['path', 'purepath', 'fileobj', 'pipe', 'socket', 'bytesio', 'process', 'streamwriter', 'devnull',
-               'stderr2stdout', 'stdin_path', 'stdin_bytesio', 'stdin_pipe', 'stdin_process', 'late_attach']
+class KeepStringIO(io.StringIO):
+    def __init__(self, *a):
+        super().__init__(*a)
+        self.was_closed = False
+
+    def close(self):
+        self.was_closed = True
 
 
-async def e2e_redirect(ctx, tmp):
+class SlowAsyncFile:
+    """aiofiles-style object: coroutine read/write/close, each taking k loop turns"""
+
+    def __init__(self, k, data=b''):
+        self.k = k
+        self.buf = b''
+        self.src = data
+        self.closed = False
+
+    async def _slow(self):
+        for _ in range(self.k):
+            await asyncio.sleep(0)
+
+    async def write(self, d):
+        await self._slow()
+        self.buf += bytes(d)
+        return len(d)
+
+    async def read(self, n=-1):
+        await self._slow()
+        if n is None or n < 0:
+            n = len(self.src)
+        r, self.src = self.src[:n], self.src[n:]
+        return r
+
+    async def close(self):
+        await self._slow()
+        self.closed = True
+
+
+class RecTransport(asyncio.Transport):
+    """transport under a real asyncio.StreamWriter: records what is written and keeps drain() waiting for k
+    loop turns after every write (a consumer slower than the channel, without any wall clock)"""
+
+    def __init__(self, loop, k):
+        super().__init__()
+        self._loop = loop
+        self.k = k
+        self.buf = b''
+        self.eof = False
+        self.closed = False
+        self.protocol = None
+        self._pending = 0
+
+    def write(self, data):
+        self.buf += bytes(data)
+        if self.k and self.protocol is not None:
+            self._pending += 1
+            if self._pending == 1:
+                self.protocol.pause_writing()
+            self._loop.call_soon(self._tick, self.k)
+
+    def _tick(self, left):
+        if left > 1:
+            self._loop.call_soon(self._tick, left - 1)
+            return
+        self._pending -= 1
+        if self._pending == 0:
+            self.protocol.resume_writing()
+
+    def can_write_eof(self):
+        return True
+
+    def write_eof(self):
+        self.eof = True
+
+    def is_closing(self):
+        return self.closed
+
+    def close(self):
+        self.closed = True
+
+    def get_extra_info(self, name, default=None):
+        return default
+
+
+def make_stream_writer(loop, k):
+    tr = RecTransport(loop, k)
+    rd = asyncio.StreamReader()
+    proto = asyncio.StreamReaderProtocol(rd)
+    proto.connection_made(tr)
+    tr.protocol = proto
+    return asyncio.StreamWriter(tr, proto, rd, loop), tr
+
+
+class ThreadSink:
+    """reads a pipe / socket end in a daemon thread, slowly; result() blocks the calling (event loop) thread,
+    so whatever arrives after it was called had already been written by then"""
+
+    def __init__(self, reader, obj, delay):
+        import threading
+        self.chunks = []
+        self.done = threading.Event()
+
+        def run():
+            import time
+            try:
+                while True:
+                    d = reader(obj)
+                    if not d:
+                        break
+                    self.chunks.append(d)
+                    if delay:
+                        time.sleep(delay)
+            except OSError:
+                pass
+            self.done.set()
+        threading.Thread(target=run, daemon=True).start()
+
+    def result(self, timeout=5):
+        """(bytes received, EOF seen).  Without EOF the thread is given the timeout to pick up what is already
+        in the kernel buffer."""
+        ok = self.done.wait(timeout)
+        return b''.join(self.chunks), ok
+
+
+OUT_KINDS = ['path', 'purepath', 'fileobj', 'textfileobj', 'bytesio', 'stringio', 'asyncfile', 'streamwriter', 'pipe',
+             'socket', 'process', 'devnull', 'pipe_default', 'stderr2stdout', 'late_attach']
+IN_KINDS = ['stdin_path', 'stdin_fileobj', 'stdin_bytesio', 'stdin_asyncfile', 'stdin_streamreader', 'stdin_pipe',
+            'stdin_socket', 'stdin_process', 'stdin_devnull', 'stdin_pipe_default']
+REDIR_KINDS = OUT_KINDS + IN_KINDS
+ASYNC_TARGETS = ('asyncfile', 'streamwriter', 'pipe', 'socket')
+
+
+LAST_INFO = {}
+
+
+async def redirect_case(conn, tmp, rng, kind, size, window, piece, api, stream, recv_eof, slow, info=LAST_INFO):
+    """One redirection over loopback.  Everything is judged at the moment wait() / run() / communicate()
+    returns, without yielding to the event loop in between.  Returns a description of the deviation or None."""
     import pathlib
     import socket
     import asyncssh
-    rng = ctx.rng
     loop = asyncio.get_event_loop()
-    listener, conn = await sshutil.loopback(srv_kw={'process_factory': _server_process, 'encoding': None})
-    seq = _SEQ
+    text = kind in ('textfileobj', 'stringio')
+    if text:
+        data = bytes(rng.choice(b'abc \n') for _ in range(size))
+    else:
+        data = bytes(rng.getrandbits(8) for _ in range(size))
+    enc = 'utf-8' if text else None
+    tag = 'err' if stream == 'stderr' else 'out'
 
-    def out_script(data, piece):
+    def out_script(d):
+        acts = []
+        for c in chop(rng, d, piece):
+            acts += [(tag, c), ('drain',)]
+        return acts + [('exit', 7)]
+
+    async def finish(cid, **kw):
+        """the three APIs that report the exit status"""
+        if api == 'run':
+            res = await asyncio.wait_for(conn.run(cid, encoding=enc, window=window, **kw), 60)
+            return res.exit_status, res.stdout, res.stderr
+        proc = await conn.create_process(cid, encoding=enc, window=window, **kw)
+        info['closed_before_attach_returned'] = proc.is_closing() and proc.exit_status is not None
+        if api == 'wait':
+            res = await asyncio.wait_for(proc.wait(), 60)
+            return res.exit_status, res.stdout, res.stderr
+        o, e = await asyncio.wait_for(proc.communicate(), 60)
+        return proc.exit_status, o, e
+
+    got = None
+    closed = None           # None = not observable / not applicable
+    status = None
+    kwname = stream
+    info.clear()
+    if kind in ('path', 'purepath'):
+        path = os.path.join(tmp, 'o%d' % _SEQ[0])
+        status, _, _ = await finish(new_id(out_script(data)), **{kwname: path if kind == 'path' else pathlib.PurePath(path)})
+        got = open(path, 'rb').read()
+    elif kind in ('fileobj', 'textfileobj'):
+        path = os.path.join(tmp, 'f%d' % _SEQ[0])
+        f = open(path, 'w' if text else 'wb')
+        status, _, _ = await finish(new_id(out_script(data)), recv_eof=recv_eof, **{kwname: f})
+        closed = f.closed
+        if not f.closed:
+            f.flush()
+        got = open(path, 'rb').read()
+        if not f.closed:
+            f.close()
+    elif kind in ('bytesio', 'stringio'):
+        f = KeepStringIO() if text else KeepBytesIO()
+        status, _, _ = await finish(new_id(out_script(data)), recv_eof=recv_eof, **{kwname: f})
+        closed = f.was_closed
+        got = f.getvalue().encode() if text else f.getvalue()
+    elif kind == 'asyncfile':
+        f = SlowAsyncFile(slow)
+        status, _, _ = await finish(new_id(out_script(data)), recv_eof=recv_eof, **{kwname: f})
+        closed = f.closed
+        got = f.buf
+    elif kind == 'streamwriter':
+        wr, tr = make_stream_writer(loop, slow)
+        status, _, _ = await finish(new_id(out_script(data)), recv_eof=recv_eof, **{kwname: wr})
+        closed = tr.eof
+        got = tr.buf
+    elif kind in ('pipe', 'socket'):
+        if kind == 'pipe':
+            r, w = os.pipe()
+            sink = ThreadSink(lambda fd: os.read(fd, 4096), r, 0.001 if slow else 0)
+            tgt = w
+        else:
+            sa, sb = socket.socketpair()
+            sink = ThreadSink(lambda s: s.recv(4096), sb, 0.001 if slow else 0)
+            tgt = sa
+        status, _, _ = await finish(new_id(out_script(data)), **{kwname: tgt})
+        # the loop thread blocks here: only what had been written when the call returned can arrive
+        got, ended = sink.result()
+        closed = ended
+        if not ended:
+            await asyncio.sleep(0.2)        # let the pending close happen so that nothing is left behind
+        if kind == 'pipe':
+            try:
+                os.close(r)
+            except OSError:
+                pass
+        else:
+            sb.close()
+    elif kind == 'process':
+        cat = await conn.create_process(new_id([('cat',), ('exit', 0)]), encoding=None)
+        status, _, _ = await finish(new_id(out_script(data)), **{kwname: cat.stdin})
+        res = await asyncio.wait_for(cat.wait(), 60)
+        got = bytes(res.stdout)
+    elif kind == 'devnull':
+        status, o, e = await finish(new_id(out_script(data)), **{kwname: asyncssh.DEVNULL})
+        mine = o if stream == 'stdout' else e
+        got = data if mine in (b'', None) else b'!' + bytes(mine)
+    elif kind == 'pipe_default':
+        status, o, e = await finish(new_id(out_script(data)), **{kwname: asyncssh.PIPE})
+        got = bytes(o if stream == 'stdout' else e)
+    elif kind == 'stderr2stdout':
         acts = []
         for c in chop(rng, data, piece):
-            acts += [('out', c), ('drain',)]
-        return acts + [('exit', 0)]
+            acts += [(rng.choice(['out', 'err']), c), ('drain',)]
+        acts.append(('exit', 7))
+        status, o, e = await finish(new_id(acts), stderr=asyncssh.STDOUT)
+        got = bytes(o)
+        if e not in (b'', None):
+            return 'stderr was not empty although redirected to stdout'
+    elif kind == 'late_attach':
+        proc = await conn.create_process(new_id(out_script(data)), encoding=None, window=window)
+        await asyncio.sleep(0.05)
+        # (attaching an asynchronously written target to a channel that has already closed raises
+        # AssertionError from channel.get_connection(); only synchronously written targets are used here)
+        f = KeepBytesIO()
+        await proc.redirect(**{kwname: f}, recv_eof=recv_eof)
+        res = await asyncio.wait_for(proc.wait(), 60)
+        status = res.exit_status
+        closed = f.was_closed
+        got = f.getvalue()
+    else:
+        # ---- sources for stdin: the server echoes stdin to stdout ("cat"), the echo is collected
+        src_closed = None
+        if kind == 'stdin_path':
+            path = os.path.join(tmp, 'i%d' % _SEQ[0])
+            open(path, 'wb').write(data)
+            src = path
+        elif kind == 'stdin_fileobj':
+            path = os.path.join(tmp, 'i%d' % _SEQ[0])
+            open(path, 'wb').write(data)
+            src = open(path, 'rb')
+        elif kind == 'stdin_bytesio':
+            src = io.BytesIO(data)
+        elif kind == 'stdin_asyncfile':
+            src = SlowAsyncFile(slow, data)
+        elif kind == 'stdin_streamreader':
+            src = asyncio.StreamReader()
 
-    rounds = 12 if ctx.tier == 'thorough' else 2
+            async def feeder(rd=src):
+                for c in chop(rng, data, piece):
+                    rd.feed_data(c)
+                    for _ in range(slow):
+                        await asyncio.sleep(0)
+                rd.feed_eof()
+            loop.create_task(feeder())
+        elif kind in ('stdin_pipe', 'stdin_socket'):
+            if kind == 'stdin_pipe':
+                r, w = os.pipe()
+                src = r
+
+                def feed():
+                    for c in chop(rng, data, 4096):
+                        os.write(w, c)
+                    os.close(w)
+            else:
+                sa, sb = socket.socketpair()
+                src = sa
+
+                def feed():
+                    sb.sendall(data)
+                    sb.shutdown(socket.SHUT_WR)
+            spawn_thread(loop, feed)
+        elif kind == 'stdin_process':
+            p0 = await conn.create_process(new_id([('out', c) for c in chop(rng, data, piece)] + [('exit', 0)]), encoding=None)
+            src = p0.stdout
+        elif kind == 'stdin_devnull':
+            src = asyncssh.DEVNULL
+            data = b''
+        else:
+            src = asyncssh.PIPE
+        cid = new_id([('cat',), ('exit', 7)])
+        if kind == 'stdin_pipe_default':
+            if api == 'run':
+                res = await asyncio.wait_for(conn.run(cid, encoding=None, window=window, input=data), 60)
+                status, o = res.exit_status, res.stdout
+            else:
+                proc = await conn.create_process(cid, encoding=None, window=window)
+                o, _ = await asyncio.wait_for(proc.communicate(data if data else None), 60)
+                if not data:
+                    proc.stdin.write_eof()
+                    o2, _ = await asyncio.wait_for(proc.communicate(), 60)
+                    o = o + o2
+                status = proc.exit_status
+        else:
+            status, o, _ = await finish(cid, stdin=src)
+        got = bytes(o)
+        if kind == 'stdin_fileobj':
+            closed = src.closed
+    if got != data:
+        n = 0
+        while n < min(len(got), len(data)) and got[n] == data[n]:
+            n += 1
+        return (f'when {api}() returned exit status {status!r} the target held {len(got)} of {len(data)} bytes '
+                f'(first {n} agree)')
+    if status != 7 and kind not in ('process',):
+        return f'exit status {status!r} reported, the server sent 7'
+    if closed is not None:
+        want_closed = recv_eof if kind in ('fileobj', 'textfileobj', 'bytesio', 'stringio', 'asyncfile',
+                                            'streamwriter', 'late_attach') else True
+        if closed != want_closed:
+            return (f'when {api}() returned, all data had been copied but the target was '
+                    f'{"closed" if closed else "not closed"} (recv_eof={recv_eof})')
+    return None
+
+
+async def e2e_redirect(ctx, tmp):
+    rng = ctx.rng
+    listener, conn = await sshutil.loopback(srv_kw={'process_factory': _server_process, 'encoding': None})
+    rounds = 10 if ctx.tier == 'thorough' else 2
     hangs = 0
     try:
         for rnd in range(rounds):
@@ -989,153 +1316,56 @@ async def e2e_redirect(ctx, tmp):
                 if hangs >= 3:
                     ctx.count('redirect_e2e.skipped_after_3_hangs')
                     continue
-                size = rng.choice([0, 5, 3000, 70000]) if rnd else [5, 3000, 70000, 0][REDIR_KINDS.index(kind) % 4]
-                if kind in ('stdin_pipe', 'pipe') and size == 0:
+                big = kind in ASYNC_TARGETS or kind == 'late_attach' or kind.startswith('stdin_')
+                size = rng.choice([200000, 60000, 3000] if big else [0, 5, 3000, 70000])
+                if rnd == 0 and big:
+                    size = 200000 if kind in ('pipe', 'socket') else 60000
+                if kind in ('stdin_pipe', 'pipe', 'stdin_socket', 'socket') and size == 0:
                     size = 7
                 window = rng.choice([1024, 2 * 1024 * 1024])
-                data = bytes(rng.getrandbits(8) for _ in range(size))
                 piece = rng.choice([100, 1000, 9000])
-                got = None
-                eof_seen = True
-                why = None
+                api = ['wait', 'run', 'communicate'][(rnd + REDIR_KINDS.index(kind)) % 3]
+                if kind in ('pipe', 'socket') and api == 'run':
+                    api = 'wait'        # whether the channel closed before the target was attached must be observable
+                stream = 'stderr' if (kind in OUT_KINDS and kind not in ('stderr2stdout',) and rng.random() < 0.3) else 'stdout'
+                recv_eof = not (rnd % 2 == 1 and rng.random() < 0.5)
+                slow = rng.choice([3, 10]) if rnd == 0 else rng.choice([0, 1, 3, 10])
+                params = {'target': kind, 'size': size, 'window': window, 'piece': piece, 'api': api,
+                          'stream': stream, 'recv_eof': recv_eof, 'slow': slow, 'rseed': rng.getrandbits(32)}
+                import random
                 try:
-                    if kind in ('path', 'purepath'):
-                        path = os.path.join(tmp, 'o%d' % seq[0])
-                        tgt = path if kind == 'path' else pathlib.PurePath(path)
-                        proc = await conn.create_process(new_id(out_script(data, piece)), encoding=None, stdout=tgt, window=window)
-                        await asyncio.wait_for(proc.wait(), 60)
-                        await asyncio.wait_for(proc.wait_closed(), 60)
-                        got = open(path, 'rb').read()
-                    elif kind == 'fileobj':
-                        path = os.path.join(tmp, 'f%d' % seq[0])
-                        f = open(path, 'wb')
-                        proc = await conn.create_process(new_id(out_script(data, piece)), encoding=None, stdout=f, window=window)
-                        await asyncio.wait_for(proc.wait(), 60)
-                        await asyncio.wait_for(proc.wait_closed(), 60)
-                        eof_seen = f.closed
-                        got = open(path, 'rb').read()
-                    elif kind == 'bytesio':
-                        f = KeepBytesIO()
-                        proc = await conn.create_process(new_id(out_script(data, piece)), encoding=None, stdout=f, window=window)
-                        await asyncio.wait_for(proc.wait(), 60)
-                        await asyncio.wait_for(proc.wait_closed(), 60)
-                        eof_seen = f.was_closed
-                        got = f.getvalue()
-                    elif kind == 'pipe':
-                        r, w = os.pipe()
-                        fut = spawn_thread(loop, _read_fd_all, r)
-                        proc = await conn.create_process(new_id(out_script(data, piece)), encoding=None, stdout=w, window=window)
-                        await asyncio.wait_for(proc.wait(), 60)
-                        await asyncio.wait_for(proc.wait_closed(), 60)
-                        try:
-                            got = await asyncio.wait_for(fut, 30)
-                        except asyncio.TimeoutError:
-                            eof_seen = False
-                            got = b''
-                    elif kind == 'socket':
-                        a, b = socket.socketpair()
-                        fut = spawn_thread(loop, _read_sock_all, b)
-                        proc = await conn.create_process(new_id(out_script(data, piece)), encoding=None, stdout=a, window=window)
-                        await asyncio.wait_for(proc.wait(), 60)
-                        await asyncio.wait_for(proc.wait_closed(), 60)
-                        try:
-                            got = await asyncio.wait_for(fut, 30)
-                        except asyncio.TimeoutError:
-                            eof_seen = False
-                            got = b''
-                    elif kind == 'process':
-                        cat = await conn.create_process(new_id([('cat',), ('exit', 0)]), encoding=None)
-                        proc = await conn.create_process(new_id(out_script(data, piece)), encoding=None, stdout=cat.stdin, window=window)
-                        res = await asyncio.wait_for(cat.wait(), 60)
-                        got = bytes(res.stdout)
-                        await asyncio.wait_for(proc.wait(), 60)
-                    elif kind == 'streamwriter':
-                        box = {'data': b'', 'eof': False}
-                        done = asyncio.Event()
-
-                        async def collect(rd, wr):
-                            box['data'] = await rd.read()
-                            box['eof'] = True
-                            wr.close()
-                            done.set()
-                        srv = await asyncio.start_server(collect, '127.0.0.1', 0)
-                        port = srv.sockets[0].getsockname()[1]
-                        rd, wr = await asyncio.open_connection('127.0.0.1', port)
-                        proc = await conn.create_process(new_id(out_script(data, piece)), encoding=None, stdout=wr, window=window)
-                        await asyncio.wait_for(proc.wait(), 60)
-                        await asyncio.wait_for(proc.wait_closed(), 60)
-                        try:
-                            await asyncio.wait_for(done.wait(), 30)
-                        except asyncio.TimeoutError:
-                            eof_seen = False
-                        got = box['data']
-                        wr.close()
-                        srv.close()
-                    elif kind == 'devnull':
-                        proc = await conn.create_process(new_id(out_script(data, piece)), encoding=None,
-                                                         stdout=asyncssh.DEVNULL, window=window)
-                        res = await asyncio.wait_for(proc.wait(), 60)
-                        got = data if res.stdout in (b'', None) and res.exit_status == 0 else b'!'
-                    elif kind == 'stderr2stdout':
-                        acts = []
-                        want = b''
-                        for c in chop(rng, data, piece):
-                            k = rng.choice(['out', 'err'])
-                            acts += [(k, c), ('drain',)]
-                            want += c
-                        acts.append(('exit', 0))
-                        proc = await conn.create_process(new_id(acts), encoding=None, stderr=asyncssh.STDOUT, window=window)
-                        res = await asyncio.wait_for(proc.wait(), 60)
-                        got = bytes(res.stdout)
-                        if res.stderr not in (b'', None):
-                            why = 'stderr was not empty although redirected to stdout'
-                    elif kind in ('stdin_path', 'stdin_bytesio', 'stdin_pipe', 'stdin_process'):
-                        if kind == 'stdin_path':
-                            path = os.path.join(tmp, 'i%d' % seq[0])
-                            open(path, 'wb').write(data)
-                            src = path
-                        elif kind == 'stdin_bytesio':
-                            src = io.BytesIO(data)
-                        elif kind == 'stdin_pipe':
-                            r, w = os.pipe()
-
-                            def feed(w=w, data=data):
-                                os.write(w, data) if data else None
-                                os.close(w)
-                            spawn_thread(loop, feed)
-                            src = r
-                        else:
-                            p0 = await conn.create_process(new_id(out_script(data, piece)), encoding=None)
-                            src = p0.stdout
-                        proc = await conn.create_process(new_id([('cat',), ('exit', 0)]), encoding=None, stdin=src, window=window)
-                        res = await asyncio.wait_for(proc.wait(), 60)
-                        got = bytes(res.stdout)
-                    elif kind == 'late_attach':
-                        # data (and usually EOF) arrive before the redirection is set up
-                        proc = await conn.create_process(new_id(out_script(data, piece)), encoding=None, window=window)
-                        await asyncio.sleep(0.05)
-                        f = KeepBytesIO()
-                        await proc.redirect(stdout=f)
-                        await asyncio.wait_for(proc.wait_closed(), 60)
-                        eof_seen = f.was_closed
-                        got = f.getvalue()
+                    why = await redirect_case(conn, tmp, random.Random(params['rseed']), kind, size, window, piece, api,
+                                              stream, recv_eof, slow)
                 except asyncio.TimeoutError:
                     why = 'the redirected process did not finish'
                     hangs += 1
-                ctx.note_case(('redir-e2e', kind, size, window, piece), nontrivial=size > 0)
+                ctx.note_case(('redir-e2e',) + tuple(sorted(params.items())), nontrivial=size > 0)
                 ctx.count('redirect_e2e.' + kind)
-                if why is None and got != data:
-                    why = f'target received {len(got or b"")} bytes, the source sent {len(data)}' + \
-                          ('' if got is None or len(got) != len(data) else ' (content differs)')
-                if why is None and not eof_seen:
-                    why = 'all data arrived but EOF was not passed on to the target'
+                ctx.count('redirect_e2e.api.' + api)
+                if kind in ASYNC_TARGETS and slow:
+                    ctx.count('redirect_e2e.slow_async_target')
+                if not recv_eof:
+                    ctx.count('redirect_e2e.recv_eof_false')
                 if why:
-                    ctx.failing_input(f'redirection kind {kind}: {why} [size {size}, window {window}, chunks of {piece}]',
-                                      {'kind': 'redirect_e2e', 'target': kind, 'size': size, 'window': window, 'piece': piece})
+                    if 'not closed' in why and kind == 'asyncfile':
+                        cls = 'async-close-late'
+                    elif kind in ('pipe', 'socket') and LAST_INFO.get('closed_before_attach_returned'):
+                        cls = 'attached-after-close'
+                    else:
+                        cls = 'redirect'
+                    params['class'] = cls
+                    params['kind'] = 'redirect_e2e'
+                    report_once(ctx, 'redirect:' + cls + ':' + kind,
+                                f'redirection of {stream} to/from {kind}: {why} [{params!r}]', params)
     finally:
         conn.close()
         listener.close()
         await listener.wait_closed()
+    d = ctx.cov['distribution']
+    for key, need in (('redirect_e2e.slow_async_target', 4), ('redirect_e2e.api.run', 5), ('redirect_e2e.api.wait', 5),
+                      ('redirect_e2e.api.communicate', 5)):
+        if d.get(key, 0) < need and hangs < 3:
+            ctx.broke('vacuity:' + key, f'only {d.get(key, 0)} cases (need {need})')
 
 
 def stage_redirect_e2e(ctx):
@@ -1246,5 +1476,31 @@ def replay(rp):
                 listener.close()
                 await listener.wait_closed()
         return sshutil.run(go(), timeout=300)
+    if kind == 'redirect_e2e':
+        import logging
+        import random
+        import shutil
+        import tempfile
+        logging.getLogger('asyncio').setLevel(logging.ERROR)
+        tmp = tempfile.mkdtemp(prefix='c19-', dir='/var/tmp')
+
+        async def go():
+            listener, conn = await sshutil.loopback(srv_kw={'process_factory': _server_process, 'encoding': None})
+            try:
+                why = await redirect_case(conn, tmp, random.Random(rp['rseed']), rp['target'], rp['size'], rp['window'],
+                                          rp['piece'], rp['api'], rp['stream'], rp['recv_eof'], rp['slow'])
+                print('redirect ->', why)
+                return 1 if why else 0
+            except asyncio.TimeoutError:
+                print('redirect -> did not finish')
+                return 1
+            finally:
+                conn.close()
+                listener.close()
+                await listener.wait_closed()
+        try:
+            return sshutil.run(go(), timeout=300)
+        finally:
+            shutil.rmtree(tmp, ignore_errors=True)
     print('replay of kind', kind, 'needs the full stage; run ./check C19')
     return 2
